@@ -198,16 +198,40 @@ pub fn cmp_text<S: Src>(s: &mut S) {
 
 // ---------------------------------------------------------------- C10
 /// every construct that tests a value classifies every value the same way: false exactly for unit and `$!`
-pub fn truthiness<S: Src>(s: &mut S) {
-    let k = s.below(19);
-    let mut d = ModelData::new();
-    let n = d.add(MCell::Number(SimpleNumber::Integer(1))).unwrap();
-    let cell = match k {
+/// a cell of any of the 19 value kinds (compound kinds refer to the number at `n`)
+fn any_cell_kind<S: Src>(s: &mut S, k: usize, n: usize) -> MCell {
+    match k {
         0..=9 => any_primitive(s, k),
         10 => MCell::Pair(n, n), 11 => MCell::Range(n, n), 12 => MCell::Slice(n, n), 13 => MCell::Partial(n, n), 14 => MCell::Concatenation(n, n),
         15 => MCell::List([n, n, n], s.below(NSEQ + 1)), 16 => MCell::CharList(['a'; NSEQ], s.below(NSEQ + 1)),
         17 => MCell::ByteList([0; NSEQ], s.below(NSEQ + 1)), _ => MCell::SymbolList([1; NSEQ], s.below(NSEQ + 1)),
-    };
+    }
+}
+
+/// `^^` classifies its two operands with the same notion of truth as every other testing construct: for every pair of value
+/// kinds the result is the boolean "exactly one of the two is true", one result replaces the two operands
+pub fn xor_classifies<S: Src>(s: &mut S) {
+    let (ka, kb) = (s.below(19), s.below(19));
+    let mut d = ModelData::new();
+    let n = d.add(MCell::Number(SimpleNumber::Integer(1))).unwrap();
+    let (ca, cb) = (any_cell_kind(s, ka, n), any_cell_kind(s, kb, n));
+    let (ta, tb) = (!matches!(ca, MCell::Unit | MCell::False), !matches!(cb, MCell::Unit | MCell::False));
+    let a = d.add(ca).unwrap();
+    let b = d.add(cb).unwrap();
+    d.push_register(n).unwrap();
+    d.push_register(a).unwrap();
+    d.push_register(b).unwrap();
+    let depth = d.nregs;
+    let r = ops::xor(&mut d);
+    s.check(r.is_ok() && d.nregs == depth - 1, "xor_leaves_one_result");
+    s.check(truthy_top(&d) == Some(ta != tb), "xor_is_true_iff_exactly_one_operand_is_true");
+}
+
+pub fn truthiness<S: Src>(s: &mut S) {
+    let k = s.below(19);
+    let mut d = ModelData::new();
+    let n = d.add(MCell::Number(SimpleNumber::Integer(1))).unwrap();
+    let cell = any_cell_kind(s, k, n);
     let expect = !matches!(cell, MCell::Unit | MCell::False);
     let a = d.add(cell).unwrap();
     d.push_to_jump_table(40).unwrap();
